@@ -638,7 +638,11 @@ impl Compiler {
 
                 let pos_start_function = self.instructions.len();
 
-                self.compile_block_statement(body)?;
+                // Loops surrounding this function are of no concern to 'stop' and 'volgende' inside of it
+                let outer_loop_contexts = std::mem::take(&mut self.loop_contexts);
+                let result = self.compile_block_statement(body);
+                self.loop_contexts = outer_loop_contexts;
+                result?;
 
                 if self.last_instruction_is(OpCode::Pop) {
                     self.remove_last_instruction();
